@@ -42,19 +42,9 @@ def _perp_ref(p, a, b):
     return anf.f_abs(cross) / anf.f_sqrt((bx - ax) * (bx - ax) + (by - ay) * (by - ay))
 
 
-def run(ctx):
-    rc = RuleCtx(ctx)
-    res = ctx.result
-    res.level = "translation_validation"
-    res.rule("G-shortest", "shortest_distance_points == hypot(max(s, t, 0), cross) with s, t the signed parallel components w.r.t. the unit chord vector; == |p - a| when a == b")
-    res.rule("G-perp", "perpendicular_distance_points == |cross(end-start, pt-start)| / |end-start|; *_index == the same on points[l:r+1]; perpendicular_distance == *_index(0, n-1)")
-    res.rule("G-perp-link", "the perpendicular primitives do not call a dependency API the installed dependency rejects for 2-component rows (numpy.cross on numpy >= 2)")
-    res.rule("G-iou", "rect_overlap == intersection / (area A + area B - intersection) when the intersection is non-empty, 0 otherwise")
-    res.rule("G-menger", "menger_curvature == 2|cross(g-f, h-f)| / sqrt(|f-g|^2 |g-h|^2 |h-f|^2), invariant under all 6 argument permutations")
-    res.rule("G-rank", "rank scatters arange(n) through argsort(array) (inverse permutation)")
-    res.rule("G-misc", "distances, triangle_area (shoelace/2), distance_to_similarity (max - a), rect (component-wise min / max)")
+def _sec_shortest(rc: RuleCtx) -> int:
+    res = rc.res
     programs = 0
-
     # ---- shortest distance ------------------------------------------------
     ev = rc.new_eval()
     p, a, b = _pt(ev, "p", True), _pt(ev, "a"), _pt(ev, "b")
@@ -98,7 +88,12 @@ def run(ctx):
     if ok:
         res.ok("G-shortest", fi.qualname, "hypot(max(s,t,0), cross) / |p-a|", f"{fi.module.relpath}:{fi.lineno}")
         res.sample({"function": fi.qualname, "normal_form": _short(want_general, 300)})
+    return programs
 
+
+def _sec_perp(rc: RuleCtx) -> int:
+    res = rc.res
+    programs = 0
     # ---- perpendicular distance ----------------------------------------------
     ev = rc.new_eval()
     pt, st, en = _pt(ev, "pt", True), _pt(ev, "start"), _pt(ev, "end")
@@ -130,7 +125,12 @@ def run(ctx):
     pr = rc.eval_expr(fi, "points[len(points)-1]", env)
     rc.expect_equal("G-perp", fi, out.value(), _perp_ref(sub, pl, pr), "perpendicular_distance == *_index(points, 0, n-1)")
     programs += 1
+    return programs
 
+
+def _sec_iou(rc: RuleCtx) -> int:
+    res = rc.res
+    programs = 0
     # ---- rectangle overlap ------------------------------------------------------
     ev = rc.new_eval()
     amin, amax, bmin, bmax = (_pt(ev, n) for n in ("amin", "amax", "bmin", "bmax"))
@@ -174,7 +174,12 @@ def run(ctx):
     if ok:
         res.ok("G-iou", fi.qualname, "intersection/(areaA + areaB - intersection); 0 only when the intersection is empty")
         res.sample({"function": fi.qualname, "normal_form": _short(iou, 300)})
+    return programs
 
+
+def _sec_menger(rc: RuleCtx) -> int:
+    res = rc.res
+    programs = 0
     # ---- Menger -------------------------------------------------------------------
     ev = rc.new_eval()
     f_, g_, h_ = _pt(ev, "f"), _pt(ev, "g"), _pt(ev, "h")
@@ -207,14 +212,24 @@ def run(ctx):
             res.ok("G-menger", fi.qualname, "normal form invariant under all 6 permutations of (f, g, h)")
     else:
         res.error("G-menger: menger_curvature does not evaluate to a single closed form")
+    return programs
 
+
+def _sec_rank(rc: RuleCtx) -> int:
+    res = rc.res
+    programs = 0
     # ---- rank ------------------------------------------------------------------------
     ev = rc.new_eval()
     arr = ev.symbol("array", True)
     fi, out = rc.eval_fn("knee_ranking.rank", {"array": arr})
     programs += 1
     _rank(rc, fi, out, arr)
+    return programs
 
+
+def _sec_misc(rc: RuleCtx) -> int:
+    res = rc.res
+    programs = 0
     # ---- misc ------------------------------------------------------------------------
     ev = rc.new_eval()
     point, points = _pt(ev, "point"), _pt(ev, "points", True)
@@ -251,7 +266,23 @@ def run(ctx):
         res.violation("G-misc", fi.module, fi.name, fi.node, "rect is not (component-wise min, component-wise max)",
                       _short(v), f"({lo}, {hi})", construct="rect")
     programs += 1
+    return programs
 
+
+def run(ctx):
+    rc = RuleCtx(ctx)
+    res = ctx.result
+    res.level = "translation_validation"
+    res.rule("G-shortest", "shortest_distance_points == hypot(max(s, t, 0), cross) with s, t the signed parallel components w.r.t. the unit chord vector; == |p - a| when a == b")
+    res.rule("G-perp", "perpendicular_distance_points == |cross(end-start, pt-start)| / |end-start|; *_index == the same on points[l:r+1]; perpendicular_distance == *_index(0, n-1)")
+    res.rule("G-perp-link", "the perpendicular primitives do not call a dependency API the installed dependency rejects for 2-component rows (numpy.cross on numpy >= 2)")
+    res.rule("G-iou", "rect_overlap == intersection / (area A + area B - intersection) when the intersection is non-empty, 0 otherwise")
+    res.rule("G-menger", "menger_curvature == 2|cross(g-f, h-f)| / sqrt(|f-g|^2 |g-h|^2 |h-f|^2), invariant under all 6 argument permutations")
+    res.rule("G-rank", "rank scatters arange(n) through argsort(array) (inverse permutation)")
+    res.rule("G-misc", "distances, triangle_area (shoelace/2), distance_to_similarity (max - a), rect (component-wise min / max)")
+    programs = 0
+    for _sec in (_sec_shortest, _sec_perp, _sec_iou, _sec_menger, _sec_rank, _sec_misc):
+        programs += _sec(rc)
     res.extra_coverage.update({"programs": programs, "disagreements_checked": len(res.findings)})
     res.assumptions += ["real-number reading of the formulas", "points are rows (x, y); arrays of points are treated row-wise",
                         "numpy element-wise / reduction semantics per kverif.npmodel"]
